@@ -35,6 +35,11 @@ def main(argv=None):
     except core.HarnessError as e:
         print("HARNESS-ERROR property=%s %s" % (prop, e), file=sys.stderr)
         return 2
+    except BaseException as e:  # noqa - a crash of the machinery is never a verdict
+        import traceback
+        traceback.print_exc()
+        print("HARNESS-ERROR property=%s unexpected %s: %s" % (prop, type(e).__name__, e), file=sys.stderr)
+        return 2
 
 
 if __name__ == "__main__":
